@@ -30,6 +30,10 @@ THEOREMS = [
     "GeoVerif.Codec.wrap32_id",
     "GeoVerif.Codec.int_roundtrip",
     "GeoVerif.Codec.int_gap",
+    "GeoVerif.Codec.gap_float",
+    "GeoVerif.Codec.gap_int",
+    "GeoVerif.Codec.prefix_kept",
+    "GeoVerif.Codec.padTo_length",
     "GeoVerif.Codec.nonintegral_reject",
     "GeoVerif.Codec.int_reject",
     "GeoVerif.Codec.int_wraps_counterexample",
@@ -277,14 +281,13 @@ def run_case(ctx, case, path):
         if not ok:
             failures.append((f"{kind} array of {n0} entries ({arr.dtype}) on {n0 + extra} vertices: the gap reads live {tail_live}, "
                              f"stored {tail_raw}, re-read {tail_back} instead of the no-data code", "C08:gap-not-no-data:" + kind))
-        live = None if live is None else live[:n0]
-        raw = None if raw is None else raw[:n0]
-        back = back[:n0]
+        # the whole padded array goes to the model as well (padTo in Model/Codec.lean; theorems gap_float / gap_int)
     elif extra:
         back = back[: len(arr)]
         raw = None if raw is None else raw[: len(arr)]
     if kind == "float":
-        lines.append({"m": "codec", "op": "float", "ndv": ftok(1.17549435e-38), "xs": [ftok(x) for x in arr.astype("float64")]})
+        lines.append({"m": "codec", "op": "float", "ndv": ftok(1.17549435e-38), "xs": [ftok(x) for x in arr.astype("float64")],
+                      "n": len(arr) + extra})
         checks.append(("float", status, dt, [ftok(x) for x in raw], [ftok(x) for x in back]))
         for x, b in zip(arr.astype("float64"), back):
             same = (math.isnan(x) and math.isnan(b)) or x == b
@@ -293,7 +296,8 @@ def run_case(ctx, case, path):
         if status != "ok":
             failures.append((f"float array {arr} rejected: {status}", "C08:float-rejected"))
     else:
-        lines.append({"m": "codec", "op": "int" if kind == "int" else "bool", "checked": bool(VARIANT["checked"]), "xs": case["xs"]})
+        lines.append({"m": "codec", "op": "int" if kind == "int" else "bool", "checked": bool(VARIANT["checked"]), "xs": case["xs"],
+                      **({"n": len(arr) + extra} if kind == "int" else {})})
         checks.append((kind, status, dt, None if raw is None else [int(x) for x in raw], [int(x) for x in back]))
         exact = [t for t in case["xs"]]
         if status == "ok":
